@@ -514,6 +514,12 @@ func propC06(c *Ctx) {
 
 	rtr := c.Rule("throw-reentry", "the unwinding routine is not re-entered from the functions it calls while the VM's frame state is only partly switched", 1)
 	ruleThrowReentry(c, rtr)
+	if vf2 := getVMFacts(c, rtr); vf2 != nil {
+		rfa := c.Rule("frame-claim-atomic", "the call routine cannot fail after it advanced the frame index: a frame overflow caught by the script leaves the VM's frame bookkeeping intact", 1)
+		ruleFrameClaimAtomic(c, rfa, vf2)
+	}
+	rha := c.Rule("handler-active", "every frame handed to the handler switch was selected by hasActiveHandler on that frame: the VM never jumps to a consumed handler", 2)
+	ruleHandlerActive(c, rha)
 	rie := c.Rule("invoke-err", "the error result of every Invoker.Invoke in the library is stored, returned or passed on: an error or recovered panic raised in a script callback reaches the calling script", 2)
 	ruleInvokeErr(c, rie)
 	rfci := c.Rule("frame-claim-init", "the call routine stores every field of a call frame it claims before it returns successfully (a reused frame must not keep the error handlers of an earlier activation)", 3)
